@@ -35,6 +35,12 @@ pub fn contract<const NI: usize, const NF: usize, const MAX: usize, const Z: usi
     let mut frac: [u8; NF] = any_digits();
     if NI > 0 {
         kani::assume(int[0] != b'0');
+        // non-empty integer part: the first Z fraction digits are zeros (they are significant digits here)
+        let mut z = 0;
+        while z < Z && z < NF {
+            frac[z] = b'0';
+            z += 1;
+        }
     } else {
         // empty integer part: exactly Z leading fraction zeros (enumerated, see pn::contract)
         let mut z = 0;
